@@ -34,9 +34,9 @@ type Case struct {
 	// otherwise it is the decoded URL path (target) or the header value
 	// (destination) handed to the handler in-process.
 	Wire   bool   `json:"wire"`
-	Form   string `json:"form"`   // grammar class
-	Str    string `json:"str"`    // the hostile string
-	State  string `json:"state"`  // pre-state of the root: "empty" | "tree"
+	Form   string `json:"form"`  // grammar class
+	Str    string `json:"str"`   // the hostile string
+	State  string `json:"state"` // pre-state of the root: "empty" | "tree"
 	Depth  string `json:"depth,omitempty"`
 	Source string `json:"source,omitempty"` // for channel=destination
 	Root   string `json:"root,omitempty"`   // spelling of the configured root ("" = clean absolute path)
@@ -95,7 +95,7 @@ func (s *sandbox) resetRoot(state string) error {
 		ioutil.WriteFile(filepath.Join(s.root, ".profile"), []byte("dot profile"), 0644)
 		ioutil.WriteFile(filepath.Join(s.root, "profile"), []byte("plain profile!"), 0644)
 		ioutil.WriteFile(filepath.Join(s.root, "..data"), []byte("dotdot data"), 0644)
-		ioutil.WriteFile(filepath.Join(s.root, "...", ), nil, 0644)
+		ioutil.WriteFile(filepath.Join(s.root, "..."), nil, 0644)
 		ioutil.WriteFile(filepath.Join(s.root, ".cfg", "app.ini"), []byte("ini"), 0644)
 		ioutil.WriteFile(filepath.Join(s.root, "sub", ".hidden"), []byte("hidden"), 0644)
 		// names with code points that are valid UTF-8 but not XML characters
